@@ -306,6 +306,33 @@ func C19(p *core.Program, r *core.Report) {
 		}) {
 			args := call.Common().Args
 			child := core.StripConv(args[len(args)-1])
+			// the clone itself, or the answer of an expanded helper that hands back the clone or
+			// nil (the nil alternative never reaches the append: it is tested away, and the edges
+			// that bring nil into the merge are left out of the path condition)
+			cut := core.EdgeSet{}
+			if ph, isPhi := child.(*ssa.Phi); isPhi {
+				var clone ssa.Value
+				okPhi := true
+				for i, e := range ph.Edges {
+					e = core.StripConv(e)
+					switch {
+					case core.IsNilConst(e):
+						pred := ph.Block().Preds[i]
+						for k, s := range pred.Succs {
+							if s == ph.Block() {
+								cut[core.Edge{From: pred, K: k}] = true
+							}
+						}
+					case clone == nil || clone == e:
+						clone = e
+					default:
+						okPhi = false
+					}
+				}
+				if okPhi && clone != nil {
+					child = clone
+				}
+			}
 			if !core.IsCallValue(domutilPkg+".CloneAndProcessTree", domutilPkg+".CloneAndProcessList")(child) {
 				continue
 			}
@@ -316,7 +343,7 @@ func C19(p *core.Program, r *core.Report) {
 					headers[pl.loop.Header.Instrs[0]] = true
 				}
 			}
-			ok, w := core.MustPassThrough(eg, call, func(in ssa.Instruction) bool { return headers[in] }, nil)
+			ok, w := core.MustPassThrough(eg, call, func(in ssa.Instruction) bool { return headers[in] }, cut)
 			r.Add("H8", "frames nested in the embedded element are removed before it enters the placeholder", p.Pos(call.Pos()), ok && len(headers) > 0,
 				fmt.Sprintf("%d loops over the iframe/object/embed descendants of the clone", len(headers)), w...)
 		}
